@@ -3,9 +3,16 @@ import PyrollModel.Proto
 /-
   Line-protocol driver of the symbolic hook interpreter (C16).
 
-    run <class> ext=<path/st,…|-> set=<a,b|-> order=<a,b> env=<name=bits,…|-> fuel=<n> [none=<a,b|->]
+    run <class> ext=<path/st,…|-> set=<a,b|-> order=<a,b> env=<name=bits,…|-> fuel=<n> [none=<a,b|->] [call=<a:k,…|->]
+        [tmpl=<class> text=<path/st,…|-> tset=<a,b|-> hist=<r:a,s:b,d:c,n:e|-> tenv=<name=bits,…|->]
 
-  `none`: names given explicitly as `None`.
+  `none`: names given explicitly as `None`.  `call`: names (of `set`) whose explicit value is a callable with `k` parameters.
+  `tmpl`: the object under test is built from a TEMPLATE object of class `tmpl` (externals `text`, initially `tset` explicitly
+  set) that went through the history `hist` (r: read, s: supply a new value, d: delete, n: supply `None`) before it was handed to
+  the copy site (`Gen.C16.copy_<class>`); `set`/`none`/`call` are then taken from the model's copy, and the answer carries two more
+  parts `|set=<names in the copy's __dict__>|treads=<results of the history's reads>`; the reads that precede the first edit are
+  evaluated with the template's INITIAL values (`tenv`, overriding `env`), the later ones with `env` (where `<name>@old` is the
+  value a re-supplied / deleted name held before).
   `st`: s (explicitly set), a (available), c (available and cached on its owner), n (opaque body returns None), ea / ei / ev / eo (raises Attribute-, Index-,
   Value-, other error).  Answer (one line):
 
@@ -76,39 +83,97 @@ def showRes (sym : Bool) (env : String → Float) : Res → String
   | .none => "N"
   | .err e => showErr e
 
-def handle (classes : List (String × List String × List String × List Impl)) (line : String) : String :=
-  -- optional eighth field `none=<a,b|->`: the names given explicitly as `None`
-  let (toks, nones) := match Proto.toks line with
-    | [cmd, cls, e, s, o, v, f, n] => ([cmd, cls, e, s, o, v, f], (field "none=" n).map splitList)
-    | t => (t, some [])
-  match toks, nones with
-  | _, none => "bad-op"
-  | [cmd, cls, e, s, o, v, f], some nones =>
+/-- optional `key=value` token -/
+def opt (pre : String) : List String → Option String
+  | [] => none
+  | t :: r => match field pre t with
+    | some v => some v
+    | none => opt pre r
+
+def parseCall (s : String) : Option (String × Nat) :=
+  match s.splitOn ":" with
+  | [n, k] => k.toNat?.map fun k => (n, k)
+  | _ => none
+
+def parseOp (s : String) : Option Op :=
+  match s.splitOn ":" with
+  | ["r", n] => some (.read n)
+  | ["s", n] => some (.supply n)
+  | ["d", n] => some (.unsupply n)
+  | ["n", n] => some (.supplyNone n)
+  | _ => none
+
+/-- what the generated module provides: the class tables, the calling convention of `Hook.__get__` for callable explicit
+    values, and per class the attribute sets a copy site takes over from its template -/
+structure Gen where
+  classes : List (String × List String × List String × List Impl)
+  conv : CallConv
+  copies : List (String × List String)
+
+def showReads (sym : Bool) (envf : String → Float) (rs : List Read) : String :=
+  ";".intercalate (rs.map fun r => s!"{r.name}={showRes sym envf r.res}:{r.steps}:{r.depth}:{r.calls}")
+
+/-- number of reads before the first edit -/
+def leadingReads : List Op → Nat
+  | .read _ :: r => leadingReads r + 1
+  | _ => 0
+
+def handle (g : Gen) (line : String) : String :=
+  match Proto.toks line with
+  | cmd :: cls :: e :: s :: o :: v :: f :: rest =>
     if cmd ≠ "run" && cmd ≠ "sym" then "bad-op" else
-    match classes.find? (fun c => c.1 = cls), field "ext=" e, field "set=" s, field "order=" o, field "env=" v,
+    match g.classes.find? (fun c => c.1 = cls), field "ext=" e, field "set=" s, field "order=" o, field "env=" v,
           (field "fuel=" f).bind String.toNat? with
     | some (_, mro, hooks, impls), some e, some s, some o, some v, some fuel =>
-      match (splitList e).mapM parseExt, (splitList v).mapM parseBinding with
-      | some ext, some env =>
-        let w : World := { impls := impls, mro := mro, hooks := hooks, ext := ext }
-        let (rs, obj) := scenarioN w fuel (splitList s) nones (splitList o)
+      match (splitList e).mapM parseExt, (splitList v).mapM parseBinding,
+            (splitList ((opt "call=" rest).getD "-")).mapM parseCall with
+      | some ext, some env, some calls =>
+        let nones := splitList ((opt "none=" rest).getD "-")
+        let w : World := { impls := impls, mro := mro, hooks := hooks, ext := ext, conv := g.conv }
         let envf := envOf (0.0 / 0.0 : Float) env
-        let reads := ";".intercalate (rs.map fun r => s!"{r.name}={showRes (cmd = "sym") envf r.res}:{r.steps}:{r.depth}:{r.calls}")
-        let cache := ",".intercalate (obj.cache.map (·.1))
-        let act := ",".intercalate obj.active
-        s!"{reads}|cache={cache}|active={act}"
-      | _, _ => "bad-op"
+        let sym := cmd = "sym"
+        match opt "tmpl=" rest with
+        | none =>
+          let (rs, obj) := readAll w fuel (Obj.freshC (splitList s) calls nones) (splitList o)
+          let cache := ",".intercalate (obj.cache.map (·.1))
+          let act := ",".intercalate obj.active
+          s!"{showReads sym envf rs}|cache={cache}|active={act}"
+        | some tcls =>
+          match g.classes.find? (fun c => c.1 = tcls), (splitList ((opt "text=" rest).getD "-")).mapM parseExt,
+                (splitList ((opt "hist=" rest).getD "-")).mapM parseOp, lookup cls g.copies,
+                (splitList ((opt "tenv=" rest).getD "-")).mapM parseBinding with
+          | some (_, tmro, thooks, timpls), some text, some ops, some srcs, some tenv =>
+            -- the hooks of the copy's class exist on the template's class as well (no implementation there: AttributeError)
+            let tw : World := { impls := timpls, mro := tmro, hooks := thooks ++ hooks.filter (fun h => !thooks.contains h),
+                                ext := text, conv := g.conv }
+            let (trs, t) := applyOpsR tw fuel (Obj.freshC (splitList ((opt "tset=" rest).getD "-")) calls nones) ops
+            match copyObj srcs t with
+            | none => "unmodelled-copy"
+            | some c =>
+              let (rs, obj) := readAll w fuel c (splitList o)
+              let cache := ",".intercalate (obj.cache.map (·.1))
+              let act := ",".intercalate obj.active
+              let dict := ",".intercalate (c.dictEntries.map (·.1))
+              let k := leadingReads ops
+              let envInit := envOf (0.0 / 0.0 : Float) (tenv ++ env)
+              let t1 := showReads sym envInit (trs.take k)
+              let t2 := showReads sym envf (trs.drop k)
+              let sep := if t1 = "" || t2 = "" then "" else ";"
+              s!"{showReads sym envf rs}|cache={cache}|active={act}|set={dict}|treads={t1}{sep}{t2}"
+          | none, _, _, _, _ => "unknown-class"
+          | _, _, _, _, _ => "bad-op"
+      | _, _, _ => "bad-op"
     | none, _, _, _, _, _ => "unknown-class"
     | _, _, _, _, _, _ => "bad-op"
-  | _, _ => "bad-op"
+  | _ => "bad-op"
 
-partial def loop (classes : List (String × List String × List String × List Impl)) (h : IO.FS.Stream) : IO Unit := do
+partial def loop (g : Gen) (h : IO.FS.Stream) : IO Unit := do
   let line ← h.getLine
   if line.isEmpty then return ()
-  IO.println (handle classes (line.trimAscii.toString))
-  loop classes h
+  IO.println (handle g (line.trimAscii.toString))
+  loop g h
 
-def main (classes : List (String × List String × List String × List Impl)) : IO Unit := do
-  loop classes (← IO.getStdin)
+def main (g : Gen) : IO Unit := do
+  loop g (← IO.getStdin)
 
 end MutualDriver
